@@ -9,10 +9,13 @@ package main
 import (
 	"bytes"
 	"crypto"
-	"crypto/sha256"
 	stded "crypto/ed25519"
+	"crypto/sha256"
 	"crypto/sha512"
 	"fmt"
+	"github.com/oasisprotocol/curve25519-voi/zzverif/corpus"
+	"github.com/oasisprotocol/curve25519-voi/zzverif/ref"
+	"math/big"
 	"math/rand/v2"
 	"os"
 	"runtime"
@@ -193,6 +196,29 @@ func buildTasks(rng *rand.Rand, shared *cache.Verifier) []task {
 			return b
 		}},
 	)
+	// verifications whose challenge scalar drives the lattice reduction through its rare branches (shifts by whole
+	// limbs): searched-for signatures from the corpus, and the triple-base multiplication on constructed scalars
+	for gi, g := range corpus.GroundKs() {
+		if g.MaxS < 32 || gi%4 != 0 {
+			continue
+		}
+		pk, gm, gs := g.Signature()
+		ts = append(ts,
+			task{name: "ed25519.Verify(challenge scalar with lattice shift >= 32)", run: func() []byte { return bb(ed25519.Verify(pk, gm, gs)) }},
+			task{name: "ed25519.VerifyWithOptions(ZIP-215, challenge scalar with lattice shift >= 32)", run: func() []byte {
+				return bb(ed25519.VerifyWithOptions(pk, gm, gs, &ed25519.Options{Verify: ed25519.VerifyOptionsZIP_215}))
+			}},
+		)
+	}
+	for _, kv := range []*big.Int{big.NewInt(3), new(big.Int).Add(new(big.Int).Lsh(big.NewInt(1), 70), big.NewInt(1)), new(big.Int).Add(new(big.Int).Lsh(big.NewInt(1), 130), big.NewInt(5)),
+		new(big.Int).ModInverse(new(big.Int).Lsh(big.NewInt(1), 64), ref.L), new(big.Int).ModInverse(new(big.Int).Lsh(big.NewInt(7), 90), ref.L), new(big.Int).Sub(ref.L, big.NewInt(2))} {
+		ks, _ := scalar.NewFromCanonicalBytes(ref.LE32(kv))
+		ts = append(ts, task{name: "curve.TripleScalarMulBasepointVartime(scalar with extreme continued fraction)", run: func() []byte {
+			p := curve.NewEdwardsPoint().TripleScalarMulBasepointVartime(ks, sharedPoint, sharedScalar, curve.EIGHT_TORSION[3])
+			b, _ := p.MarshalBinary()
+			return append(b, bb(p.IsSmallOrder())...)
+		}})
+	}
 	for i := range ts {
 		ts[i].want = ts[i].run() // sequential reference
 	}
